@@ -154,7 +154,7 @@ def r_doc_reset(ctx, repo, entries=None):
                           'per-document state %s.%s (initialised %s in __init__, mutated in %s line %d) is not reset in %s '
                           'after the document has been processed: the next document of the stream sees it'
                           % (K.name, name, norm(fields[name]), where[0].qualname, where[1].node.lineno, entry.qualname))
-    rule.require_min(11, 'per-document accumulators')
+    rule.require_min(11 if entries is None else 2 * len(entries) - 1, 'per-document accumulators')
     return rule
 
 
